@@ -36,7 +36,7 @@ def plan (tier, seed):
     out += [dict (kind = 'procs',   i = i, seed = seed, n = 6 if tier == 'quick' else 16) for i in range (12 * k)]
     out += [dict (kind = 'inproc',  i = i, seed = seed) for i in range (16 * k)]
     out += [dict (kind = 'routes',  i = i, seed = seed) for i in range (30 * k)]
-    out += [dict (kind = 'live',    i = i, seed = seed) for i in range (20 * k)]
+    out += [dict (kind = 'live',    i = i, seed = seed) for i in range (48 * k)]
     out += [dict (kind = 'stale',   i = i, seed = seed) for i in range (16 * k)]
     out += [dict (kind = 'sections', i = i, seed = seed) for i in range (24 * k)]
     out += [dict (c, kind = 'routes') for c in corpus.plan_cases (seed, tier, 1, 1)]
@@ -503,11 +503,14 @@ def check_live (c):
     sa  = loaded_model (rng, cli_sources = True, nobj_min = 1)
     sb  = loaded_model (rng, cli_sources = True, nobj_min = 1)
     MM  = common.repo ()
-    a   = gen.build (sa)
+    # (every other pair through the classes of the library, without the call that the command line makes after
+    # registering distributed loads: whatever the junction pulses then carry, they carry it at every solve)
+    kwb = dict (route = 'api', fix = False) if c ['i'] % 2 else {}
+    a   = gen.build (sa, **kwb)
     observe.solve (a)
     ref = dict (current = np.array (a.current), Z = np.array (a.Z), imp = np.array ([complex (s.impedance) for s in a.sources]))
-    b   = gen.build (sb)
-    a2  = gen.build (sa)            # a second object of the first model, built while the other model is alive
+    b   = gen.build (sb, **kwb)
+    a2  = gen.build (sa, **kwb)            # a second object of the first model, built while the other model is alive
     observe.solve (b)
     rb  = dict (current = np.array (b.current), imp = np.array ([complex (s.impedance) for s in b.sources]))
     viol, mon = [], {}
